@@ -100,6 +100,13 @@ def c01_curated():
         rule(H("out2", x, y, z_), For(PV("z"), Rng(C(0), C(2))), Cl("foo", x, y), Cl("bar", y, z_)),
         rule(H("out3", x, z_), Cl("o", Pat(PC("Some", PV("q")))), Let(PV("z"), Bin("%", Bin("+", V("q"), C(1)), C(3))), Cl("foo", x, y), Cl("bar", y, z_)),
         rule(H("foo", x, z_), For(PV("z"), Rng(C(1), C(3))), Cl("foo", x, y), Cl("bar", y, z_))]))
+    # the binder's variable used in the FIRST clause of a two-clause join; reference patterns in binders
+    P.append(Program("binder_first_clause", [R("foo", I, I), R("bar", I, I), R("src", I), R("o", "Option<i32>"), R("t1", I, I, I), R("t2", I, I), R("t3", I, I), R("t4", I, I)], [
+        rule(H("t1", x, y, z_), For(PV("x"), Rng(C(0), C(2))), Cl("foo", x, y), Cl("bar", y, z_)),
+        rule(H("t2", x, z_), Let(PV("x"), C(1)), Cl("foo", x, y), Cl("bar", y, z_)),
+        rule(H("t3", V("s"), y), For(PRef(PV("s")), ArrIter([0, 2])), Cl("foo", V("s"), y), Cl("src", y)),
+        rule(H("t4", k, y), Cl("o", V("ov")), IfLet(PRef(PC("Some", PV("k"))), V("ov")), Cl("foo", k, y), Cl("bar", y, _)),
+        rule(H("foo", y, x), Cl("t3", x, y), Cl("bar", x, _))]))
     P.append(Program("join_repeat_second", [R("foo", I, I), R("bar", I, I), R("r", I, I), R("r2", I, I)], [
         rule(H("r", x, y), Cl("foo", x, y), Cl("bar", y, y)),
         rule(H("r2", x, y), Cl("bar", y, y), Cl("foo", x, y)),
@@ -325,6 +332,7 @@ def c07_curated():
         rule(H("c", x, y), Cl("e", x, _), Cl("e", _, y), Cl("t", x, y, x)),
         rule(H("b", x, x), Cl("b", x, y), Cl("e", y, y)),
         rule(H("a", x), Let(PV("z"), C(1)), Cl("e", x, y), Cl("b", y, z_)),
+        rule(H("a", y), For(PV("x"), Rng(C(1), C(3))), Cl("e", x, y), Cl("b", y, _)),
         rule(H("c", x, y), Cl("e", x, y), Cl("b", y, y)),
         rule(H("c", y, y), Cl("c", x, y), Cl("b", y, x), Cl("t", x, _, y))]))
     P.append(Program("expr_args", [R("e", I, I), R("f", I, I), R("r", I, I), R("s", I, I)], [
@@ -437,7 +445,7 @@ def c06_variants(seed, per_base=6, bases=None):
     import itertools as _it
     rng = random.Random(seed)
     base = [p for p in c01_curated() if p.name in (bases or ("tc", "same_gen", "mutual3", "three_dyn", "join_cond2", "facts_multihead", "two_strata", "empty_rel",
-                                                              "binder_before_join", "join_repeat_second", "consts_repeats"))]
+                                                              "binder_before_join", "binder_first_clause", "join_repeat_second", "consts_repeats"))]
     out = []
     adversarial = ["tuple", "before", "res", "timeout", "val", "row", "matching", "changed", "total", "delta", "rel_ind", "selection_tuple", "key", "v", "i"]
     for p in base:
@@ -515,6 +523,11 @@ def c09_variants():
             out.append(_clone_prog(b, "%s__inc_%s" % (bn, pos), include=inc))
         # everything inside the included source
         out.append(_clone_prog(b, bn + "__inc_all", include={"pos": "first", "rels": [r.name for r in b.rels], "rules": list(range(nrules))}))
+    # include_source! together with inner attributes: the attribute must survive the re-invocation
+    q = _clone_prog(bases["tc"], "tc__inc_rt", include={"pos": "first", "rels": ["edge"], "rules": [0]})
+    q.attrs = ["generate_run_timeout", "measure_rule_times"]
+    q.scenario = "timeout"
+    out.append(q)
     # generic struct signature
     for bn in ("tc", "same_gen"):
         b = bases[bn]
@@ -598,3 +611,71 @@ def c14_lattice():
 
 def v_():
     return V("v")
+
+
+# ------------------------------------------------------------------------------------ random programs with aggregates / negation / lattices
+def random_agg_programs(seed, count, prefix="ragg"):
+    """a random positive base program plus 1-3 rules, in strictly higher strata, that aggregate or negate over it"""
+    g = RandGen(seed, max_arity=2, max_body=2)
+    rng = g.rng
+    out = []
+    for i in range(count):
+        p = g.program("%s%d_%d" % (prefix, seed % 1000, i), nrel=rng.randint(2, 3), nrule=rng.randint(1, 3))
+        base = list(p.rels)
+        for j in range(rng.randint(1, 3)):
+            src = rng.choice(base)          # relation the rule iterates
+            tgt = rng.choice(base)          # relation aggregated / negated
+            kind = rng.choice(["count", "sum", "min", "max", "not", "not"])
+            sargs = [V("a%d" % c) for c in range(src.arity)]
+            key = sargs[0]
+            if kind == "not":
+                targs = [key if c == 0 else (Wild() if rng.random() < 0.6 else C(rng.randint(0, 2))) for c in range(tgt.arity)]
+                hr = R("t%d" % j, I)
+                p.rels.append(hr)
+                p.rules.append(Rule([Head(hr.name, [key])], [Clause(src.name, sargs), Neg(tgt.name, targs)]))
+            elif kind == "count":
+                use_key = rng.random() < 0.7
+                targs = [(key if (c == 0 and use_key) else Wild()) for c in range(tgt.arity)]
+                hr = R("t%d" % j, I, "usize")
+                p.rels.append(hr)
+                p.rules.append(Rule([Head(hr.name, [key, V("n")])], [Clause(src.name, sargs), Agg(PV("n"), "count", [], tgt.name, targs)]))
+            else:
+                if tgt.arity < 2:
+                    targs, bound = [V("q")], ["q"]
+                else:
+                    targs, bound = [key, V("q")], ["q"]
+                hr = R("t%d" % j, I, I)
+                p.rels.append(hr)
+                p.rules.append(Rule([Head(hr.name, [key, V("m")])], [Clause(src.name, sargs), Agg(PV("m"), kind, bound, tgt.name, targs)]))
+        p.relmap = {r.name: r for r in p.rels}
+        out.append(p)
+    return out
+
+
+def random_lattice_programs(seed, count, prefix="rlat"):
+    """a random positive base program feeding a lattice that is propagated along a binary relation and read
+    back through an upward-closed test"""
+    g = RandGen(seed, max_arity=2, max_body=2)
+    rng = g.rng
+    out = []
+    for i in range(count):
+        p = g.program("%s%d_%d" % (prefix, seed % 1000, i), nrel=2, nrule=rng.randint(1, 2))
+        bins = [r for r in p.rels if r.arity == 2]
+        e = rng.choice(bins)
+        dual = rng.random() < 0.5
+        ty = DI if dual else I
+        p.rels.append(R("lat", I, ty, lattice=True))
+        mk = (lambda ex: Ctor("Dual", ex)) if dual else (lambda ex: ex)
+        vpat = Pat(PC("Dual", PV("v"))) if dual else V("v")
+        p.rules.append(Rule([Head("lat", [x, mk(y)])], [Clause(e.name, [x, y])]))
+        step = rng.choice(["copy", "inc"])
+        newv = V("v") if step == "copy" else Call("min", Bin("+", V("v"), C(1)), C(3))
+        p.rules.append(Rule([Head("lat", [y, mk(newv)])], [Clause("lat", [x, vpat]), Clause(e.name, [x, y])]))
+        p.rels.append(R("hi", I))
+        cmpop = "<=" if dual else ">="
+        p.rules.append(Rule([Head("hi", [x])], [Clause("lat", [x, vpat]), If(Bin(cmpop, V("v"), C(1)))]))
+        if rng.random() < 0.5:
+            p.rules.append(Rule([Head(e.name, [x, x])], [Clause("hi", [x])]))
+        p.relmap = {r.name: r for r in p.rels}
+        out.append(p)
+    return out
